@@ -681,18 +681,21 @@ class C06:
     def run_sweep(self, sh, rec):
         sites = self.sweep_sites()
         mine = sites[sh["index"] :: sh["nsweep"]]
-        for k, (coname, ln) in enumerate(harness.budgeted(mine, rec)):
+        # thorough: every site with a short, a medium and a long hold (windows of different widths)
+        holds = [0.012] if sh["tier"] == "quick" else [0.003, 0.012, 0.04]
+        mine = [(c, l, h) for (c, l) in mine for h in holds]
+        for k, (coname, ln, hold) in enumerate(harness.budgeted(mine, rec)):
             rec.count("sweep_sites")
             before = self.inj.stats()["delays_injected"]
             for j, base in enumerate(self.SWEEP_CASES):
-                case = dict(base, forced_sites=[[coname, ln, 0.012]], sweep=True)
+                case = dict(base, forced_sites=[[coname, ln, hold]], sweep=True)
                 if k == 0 and j == 0:
                     rec.sample({"case": case}, "sweep")
                 self.run_case(case, rec)
                 if j < 2:
                     # the same preemption point while the reader thread runs late (held before every queue.put):
                     # windows between "the process has exited" and "its last chunk is queued" need both
-                    case = dict(base, forced_sites=[[coname, ln, 0.012]], forced=[["populate_fd_queue", "queue.put(c)", 0, 0.004]], sweep="slow-reader")
+                    case = dict(base, forced_sites=[[coname, ln, hold]], forced=[["populate_fd_queue", "queue.put(c)", 0, 0.004]], sweep="slow-reader")
                     self.run_case(case, rec)
                     rec.count("sweep_slow_reader_cases")
             taken = self.inj.stats()["delays_injected"] - before
